@@ -35,6 +35,21 @@ CLAIMED = {
         "DESIGN.md 4 C05",
         "",
     ),
+    "C06": (
+        "Hypothesis + bounded-exhaustive operation histories on the builder against a dict-based reference model; builder vs built format vs element-list constructor differential",
+        "Op histories (add/set of options, command options, arguments, names) stacked on 0-2 base levels; after every op the "
+        "complete public query table of builder, built format and reference model are compared; accept/reject decisions and the "
+        "element-list constructor are compared with the model.",
+        "DESIGN.md 4 C06",
+        "",
+    ),
+    "C07": (
+        "complete enumeration of flag words, names over a small alphabet and boundary conversions against tables written from the statement; Hypothesis text-form round trips",
+        "All 2^13 option and 2^11 argument flag words x short presence x default kinds; all names of length <= 4 over 8 characters "
+        "bare and dash-prefixed; conversion of boundary texts and round trips of random ints/floats/booleans.",
+        "DESIGN.md 4 C07",
+        "",
+    ),
     "C12": (
         "bounded-exhaustive operation sequences + Hypothesis op lists against a list-based reference model of the dispatcher",
         "All 11^5 (quick) / 11^7 (thorough) register/dispatch sequences, each with and without queries after every step, plus "
